@@ -15,7 +15,8 @@ Local Open Scope nat_scope.
 
 Record same_but_choices (s s' : sstate) : Prop := {
   sb_in : s_in s' = s_in s; sb_authed : s_authed s' = s_authed s; sb_faults : s_faults s' = s_faults s;
-  sb_store : s_store s' = s_store s; sb_active : s_active s' = s_active s; sb_cfg : s_cfg s' = s_cfg s
+  sb_store : s_store s' = s_store s; sb_active : s_active s' = s_active s; sb_cfg : s_cfg s' = s_cfg s;
+  sb_count : s_count s' = s_count s
 }.
 
 Lemma sbc_refl : forall s, same_but_choices s s.
@@ -49,13 +50,13 @@ Qed.
 Definition data_verbs : list bytes := [bs "LISTSCRIPTS"; bs "GETSCRIPT"].
 
 (* one complete data command arriving at a conforming server: the bytes written are those of [render_answer] *)
-Lemma srv_react_data : forall verb args s a s2 out s3,
-  In verb data_verbs -> conforming s ->
+Lemma srv_react_data_gen : forall verb args s a s2 out s3,
+  In verb data_verbs -> live s -> fault_now s = FNone ->
   srv_step verb (map decode_arg args) s = Some (a, s2) ->
   render_answer a s2 = (out, s3) -> s_in s3 = s_in s2 ->
   srv_react s (command_bytes verb args) = (s3, out).
 Proof.
-  intros verb args s a s2 out s3 Hv (Hin & Hau & Hf) Hstep Hrb R1.
+  intros verb args s a s2 out s3 Hv (Hin & Hau) Hf Hstep Hrb R1. unfold fault_now in Hf.
   assert (Hverb : verb <> [] /\ Forall (fun c => is_alpha c = true) verb /\ upper verb = verb).
   { unfold data_verbs in Hv. cbn [In] in Hv.
     repeat (destruct Hv as [<-|Hv]; [repeat split; try discriminate; try reflexivity; repeat constructor|]). destruct Hv. }
@@ -70,7 +71,7 @@ Proof.
   rewrite (command_exactly_one verb args Hne Hal), Hup.
   assert (Hh : handle (PCmd verb (map decode_arg args) []) (upd_in [] (upd_in (command_bytes verb args) s)) = (out, s3)).
   { unfold handle. cbn [s_count upd_count s_faults upd_in pred].
-    rewrite Hf, find_fault_nil.
+    rewrite Hf.
     unfold data_verbs in Hv. cbn [In] in Hv.
     assert (Hs' : upd_cmds (verb, map decode_arg args) (upd_count (upd_in [] (upd_in (command_bytes verb args) s)))
                   = booked verb (map decode_arg args) s).
@@ -81,6 +82,16 @@ Proof.
     destruct Hv. }
   rewrite Hh. cbn [app feed_loop].
   rewrite R1, E1. cbn. rewrite Hin. reflexivity.
+Qed.
+
+Lemma srv_react_data : forall verb args s a s2 out s3,
+  In verb data_verbs -> conforming s ->
+  srv_step verb (map decode_arg args) s = Some (a, s2) ->
+  render_answer a s2 = (out, s3) -> s_in s3 = s_in s2 ->
+  srv_react s (command_bytes verb args) = (s3, out).
+Proof.
+  intros verb args s a s2 out s3 Hv Hc. destruct (conforming_live s Hc) as (Hl & Hf).
+  exact (srv_react_data_gen verb args s a s2 out s3 Hv Hl Hf).
 Qed.
 
 (* ------------------------------------------------------------------ LISTSCRIPTS end to end *)
@@ -94,8 +105,9 @@ Qed.
 
 Notation runS := (interp_s sstate srv_react srv_connect srv_tls).
 
-Theorem listscripts_against_server_k : forall f st (w : sworld sstate) (k : kont),
-  c_auth st = true -> s_stream sstate w = [] -> conforming (s_peer sstate w) -> names_ok (s_peer sstate w) ->
+Theorem listscripts_against_server_k_gen : forall f st (w : sworld sstate) (k : kont),
+  c_auth st = true -> s_stream sstate w = [] -> live (s_peer sstate w) -> fault_now (s_peer sstate w) = FNone ->
+  names_ok (s_peer sstate w) ->
   let s := s_peer sstate w in
   let es := listing_entries (s_store s) (s_active s) in
   exists s3,
@@ -103,10 +115,11 @@ Theorem listscripts_against_server_k : forall f st (w : sworld sstate) (k : kont
     runS (k st (VListing (last_active es) (map fst (filter (fun e => negb (snd e)) es))))
      (mkSW sstate s3 [] (S (s_n sstate w)) (s_conn sstate w) (Transport.s_tls sstate w)
           (WSend (s_conn sstate w) (Transport.s_tls sstate w) (command_bytes (bs "LISTSCRIPTS") []) :: s_log sstate w)) /\
-    conforming s3 /\ s_store s3 = s_store s /\ s_active s3 = s_active s /\ s_cfg s3 = s_cfg s /\
+    live s3 /\ s_faults s3 = s_faults s /\ s_count s3 = S (s_count s) /\
+    s_store s3 = s_store s /\ s_active s3 = s_active s /\ s_cfg s3 = s_cfg s /\
     s3 = snd (render_answer AnsListing (booked (bs "LISTSCRIPTS") [] s)).
 Proof.
-  intros f st w k Ha Hs Hc Hn s es.
+  intros f st w k Ha Hs Hc Hfn Hn s es.
   set (s2 := booked (bs "LISTSCRIPTS") [] s).
   assert (Hstep : srv_step (bs "LISTSCRIPTS") (map decode_arg []) s = Some (AnsListing, s2)) by reflexivity.
   (* what the server writes *)
@@ -116,11 +129,13 @@ Proof.
   assert (Hrender : render_answer AnsListing s2 = (listing_stream (combine es encs) ++ render_reply r, s3)).
   { unfold render_answer. rewrite El, Hrb. reflexivity. }
   assert (Hin3 : s_in s3 = s_in s2) by (rewrite R1; apply (sb_in _ _ Hsb)).
-  pose proof (srv_react_data (bs "LISTSCRIPTS") [] s AnsListing s2 _ s3 ltac:(cbn; tauto) Hc Hstep Hrender Hin3) as Hreact.
+  pose proof (srv_react_data_gen (bs "LISTSCRIPTS") [] s AnsListing s2 _ s3 ltac:(cbn; tauto) Hc Hfn Hstep Hrender Hin3) as Hreact.
   exists s3. split.
-  2:{ destruct Hc as (C1 & C2 & C3). destruct Hsb as [B1 B2 B3 B4 B5 B6].
-      unfold conforming. repeat split; try congruence;
-        try (rewrite R1, B1; exact C1); try (rewrite R2, B2; exact C2); try (rewrite R3, B3; exact C3);
+  2:{ destruct Hc as (C1 & C2). destruct Hsb as [B1 B2 B3 B4 B5 B6 B7].
+      pose proof (pick_count _ _ _ Hp) as Hpc.
+      unfold live. repeat split; try congruence;
+        try (rewrite R1, B1; exact C1); try (rewrite R2, B2; exact C2); try (rewrite R3, B3; reflexivity);
+        try (rewrite Hpc, B7; reflexivity);
         try (rewrite R4, B4; reflexivity); try (rewrite R5, B5; reflexivity); try (rewrite R6, B6; reflexivity).
       fold s2. rewrite Hrender. reflexivity. }
   (* the client *)
@@ -152,10 +167,28 @@ Proof.
   rewrite (listscripts_decode es Hes). reflexivity.
 Qed.
 
+Theorem listscripts_against_server_k : forall f st (w : sworld sstate) (k : kont),
+  c_auth st = true -> s_stream sstate w = [] -> conforming (s_peer sstate w) -> names_ok (s_peer sstate w) ->
+  let s := s_peer sstate w in
+  let es := listing_entries (s_store s) (s_active s) in
+  exists s3,
+    runS (listscripts (S (length (s_store s) + f)) st k) w =
+    runS (k st (VListing (last_active es) (map fst (filter (fun e => negb (snd e)) es))))
+     (mkSW sstate s3 [] (S (s_n sstate w)) (s_conn sstate w) (Transport.s_tls sstate w)
+          (WSend (s_conn sstate w) (Transport.s_tls sstate w) (command_bytes (bs "LISTSCRIPTS") []) :: s_log sstate w)) /\
+    conforming s3 /\ s_store s3 = s_store s /\ s_active s3 = s_active s /\ s_cfg s3 = s_cfg s /\
+    s3 = snd (render_answer AnsListing (booked (bs "LISTSCRIPTS") [] s)).
+Proof.
+  intros f st w k Ha Hs Hc Hn s es. destruct (conforming_live _ Hc) as (Hl & Hf).
+  destruct (listscripts_against_server_k_gen f st w k Ha Hs Hl Hf Hn) as (s3 & R & (L1 & L2) & Hfs & _ & X).
+  exists s3. split; [exact R|]. split; [|exact X].
+  destruct Hc as (_ & _ & C3). unfold conforming. repeat split; congruence.
+Qed.
+
 (* ------------------------------------------------------------------ GETSCRIPT end to end *)
 
-Theorem getscript_against_server_k : forall f name content st (w : sworld sstate) (k : kont),
-  c_auth st = true -> s_stream sstate w = [] -> conforming (s_peer sstate w) ->
+Theorem getscript_against_server_k_gen : forall f name content st (w : sworld sstate) (k : kont),
+  c_auth st = true -> s_stream sstate w = [] -> live (s_peer sstate w) -> fault_now (s_peer sstate w) = FNone ->
   assoc_get name (s_store (s_peer sstate w)) = Some content ->
   let s := s_peer sstate w in
   exists s3,
@@ -163,10 +196,11 @@ Theorem getscript_against_server_k : forall f name content st (w : sworld sstate
     runS (k st (VBytes (join [10%N] (splitlines content))))
      (mkSW sstate s3 [] (S (s_n sstate w)) (s_conn sstate w) (Transport.s_tls sstate w)
           (WSend (s_conn sstate w) (Transport.s_tls sstate w) (command_bytes (bs "GETSCRIPT") [AStr name]) :: s_log sstate w)) /\
-    conforming s3 /\ s_store s3 = s_store s /\ s_active s3 = s_active s /\ s_cfg s3 = s_cfg s /\
+    live s3 /\ s_faults s3 = s_faults s /\ s_count s3 = S (s_count s) /\
+    s_store s3 = s_store s /\ s_active s3 = s_active s /\ s_cfg s3 = s_cfg s /\
     s3 = snd (render_answer (AnsScript content) (booked (bs "GETSCRIPT") [PStr name] s)).
 Proof.
-  intros f name content st w k Ha Hs Hc Hget s.
+  intros f name content st w k Ha Hs Hc Hfn Hget s.
   set (s2 := booked (bs "GETSCRIPT") [PStr name] s).
   assert (Hstep : srv_step (bs "GETSCRIPT") (map decode_arg [AStr name]) s = Some (AnsScript content, s2)).
   { unfold srv_step, exec_command. eval_beq. cbv iota. cbn [map decode_arg].
@@ -182,11 +216,13 @@ Proof.
   assert (Hrender : render_answer (AnsScript content) s2 = (render_string enc content ++ eol ++ render_reply r, s3)).
   { unfold render_answer. rewrite Ep. fold enc. fold eol. rewrite Hrb. reflexivity. }
   assert (Hin3 : s_in s3 = s_in s2) by (rewrite R1; apply (sb_in _ _ Hsb)).
-  pose proof (srv_react_data (bs "GETSCRIPT") [AStr name] s (AnsScript content) s2 _ s3 ltac:(cbn; tauto) Hc Hstep Hrender Hin3) as Hreact.
+  pose proof (srv_react_data_gen (bs "GETSCRIPT") [AStr name] s (AnsScript content) s2 _ s3 ltac:(cbn; tauto) Hc Hfn Hstep Hrender Hin3) as Hreact.
   exists s3. split.
-  2:{ destruct Hc as (C1 & C2 & C3). destruct Hsb as [B1 B2 B3 B4 B5 B6].
-      unfold conforming. repeat split;
-        try (rewrite R1, B1; exact C1); try (rewrite R2, B2; exact C2); try (rewrite R3, B3; exact C3);
+  2:{ destruct Hc as (C1 & C2). destruct Hsb as [B1 B2 B3 B4 B5 B6 B7].
+      pose proof (pick_count _ _ _ Hp) as Hpc.
+      unfold live. repeat split;
+        try (rewrite R1, B1; exact C1); try (rewrite R2, B2; exact C2); try (rewrite R3, B3; reflexivity);
+        try (rewrite Hpc, B7; reflexivity);
         try (rewrite R4, B4; reflexivity); try (rewrite R5, B5; reflexivity); try (rewrite R6, B6; reflexivity).
       fold s2. rewrite Hrender. reflexivity. }
   unfold getscript, auth_required. rewrite Ha. unfold send_command. cbn [send_all].
@@ -217,6 +253,24 @@ Proof.
   rewrite getscript_decode, unescape_escape. reflexivity.
 Qed.
 
+
+Theorem getscript_against_server_k : forall f name content st (w : sworld sstate) (k : kont),
+  c_auth st = true -> s_stream sstate w = [] -> conforming (s_peer sstate w) ->
+  assoc_get name (s_store (s_peer sstate w)) = Some content ->
+  let s := s_peer sstate w in
+  exists s3,
+    runS (getscript (S (S (S f))) name st k) w =
+    runS (k st (VBytes (join [10%N] (splitlines content))))
+     (mkSW sstate s3 [] (S (s_n sstate w)) (s_conn sstate w) (Transport.s_tls sstate w)
+          (WSend (s_conn sstate w) (Transport.s_tls sstate w) (command_bytes (bs "GETSCRIPT") [AStr name]) :: s_log sstate w)) /\
+    conforming s3 /\ s_store s3 = s_store s /\ s_active s3 = s_active s /\ s_cfg s3 = s_cfg s /\
+    s3 = snd (render_answer (AnsScript content) (booked (bs "GETSCRIPT") [PStr name] s)).
+Proof.
+  intros f name content st w k Ha Hs Hc Hget s. destruct (conforming_live _ Hc) as (Hl & Hf).
+  destruct (getscript_against_server_k_gen f name content st w k Ha Hs Hl Hf Hget) as (s3 & R & (L1 & L2) & Hfs & _ & X).
+  exists s3. split; [exact R|]. split; [|exact X].
+  destruct Hc as (_ & _ & C3). unfold conforming. repeat split; congruence.
+Qed.
 
 (* with the final continuation *)
 Theorem listscripts_against_server : forall f st (w : sworld sstate),
@@ -256,20 +310,20 @@ Definition answer_state (a : answer) (c : N) (st : cstate) : cstate :=
 
 Definition answer_bool (a : answer) : bool := match a with AnsOK _ => true | _ => false end.
 
-Theorem simple_cmd_against_server_k : forall f verb args st (w : sworld sstate) a s2 (k : kont),
-  In verb simple_verbs -> s_stream sstate w = [] -> conforming (s_peer sstate w) ->
+Theorem simple_cmd_against_server_k_gen : forall f verb args st (w : sworld sstate) a s2 (k : kont),
+  In verb simple_verbs -> s_stream sstate w = [] -> live (s_peer sstate w) -> fault_now (s_peer sstate w) = FNone ->
   srv_step verb (map decode_arg args) (s_peer sstate w) = Some (a, s2) ->
   exists c s3,
-    pick s2 = (c, s3) /\ conforming s3 /\
+    pick s2 = (c, s3) /\ live s3 /\ s_faults s3 = s_faults (s_peer sstate w) /\ s_count s3 = S (s_count (s_peer sstate w)) /\
     s_store s3 = s_store s2 /\ s_active s3 = s_active s2 /\ s_cfg s3 = s_cfg (s_peer sstate w) /\
     runS (simple_cmd (S f) verb args st k) w =
     runS (k (answer_state a c st) (VBool (answer_bool a)))
      (mkSW sstate s3 [] (S (s_n sstate w)) (s_conn sstate w) (Transport.s_tls sstate w)
           (WSend (s_conn sstate w) (Transport.s_tls sstate w) (command_bytes verb args) :: s_log sstate w)).
 Proof.
-  intros f verb args st w a s2 k Hv Hs Hc Hstep.
-  destruct (srv_react_simple verb args (s_peer sstate w) a s2 Hv Hc Hstep)
-    as (c & s3 & Hp & Hreact & Hc3 & Hst & Hac & Hcfg).
+  intros f verb args st w a s2 k Hv Hs Hc Hfn Hstep.
+  destruct (srv_react_simple_gen verb args (s_peer sstate w) a s2 Hv Hc Hfn Hstep)
+    as (c & s3 & Hp & Hreact & Hc3 & Hfs3 & Hct3 & Hst & Hac & Hcfg).
   exists c, s3. repeat split; try assumption; try apply Hc3.
   assert (Hsa : simple_answer a) by (eapply exec_simple_answer; eauto).
   set (r := match a with
@@ -295,6 +349,23 @@ Proof.
     unfold code_of, text_of, mk_reply. cbn [r_code r_text].
     destruct code as [x|]; [|contradiction].
     destruct ((c / 2) mod 4 =? 0)%N; reflexivity.
+Qed.
+
+Theorem simple_cmd_against_server_k : forall f verb args st (w : sworld sstate) a s2 (k : kont),
+  In verb simple_verbs -> s_stream sstate w = [] -> conforming (s_peer sstate w) ->
+  srv_step verb (map decode_arg args) (s_peer sstate w) = Some (a, s2) ->
+  exists c s3,
+    pick s2 = (c, s3) /\ conforming s3 /\
+    s_store s3 = s_store s2 /\ s_active s3 = s_active s2 /\ s_cfg s3 = s_cfg (s_peer sstate w) /\
+    runS (simple_cmd (S f) verb args st k) w =
+    runS (k (answer_state a c st) (VBool (answer_bool a)))
+     (mkSW sstate s3 [] (S (s_n sstate w)) (s_conn sstate w) (Transport.s_tls sstate w)
+          (WSend (s_conn sstate w) (Transport.s_tls sstate w) (command_bytes verb args) :: s_log sstate w)).
+Proof.
+  intros f verb args st w a s2 k Hv Hs Hc Hstep. destruct (conforming_live _ Hc) as (Hl & Hf).
+  destruct (simple_cmd_against_server_k_gen f verb args st w a s2 k Hv Hs Hl Hf Hstep) as (c & s3 & Hp & (L1 & L2) & Hfs & _ & X).
+  exists c, s3. split; [exact Hp|]. split; [|exact X].
+  destruct Hc as (_ & _ & C3). unfold conforming. repeat split; congruence.
 Qed.
 
 (* ------------------------------------------------------------------ whole sessions, data operations included *)
